@@ -690,9 +690,11 @@ def run_check(check: Check, tier: str = "quick", seed: int = 0) -> int:
 
 
 def write_evidence(check: Check, tier, seed, t0, coverage, violations=0):
-    os.makedirs(os.path.join(VERIF, "evidence"), exist_ok=True)
+    # evidence/ always describes /repo itself; runs against another tree (VERIF_REPO=...) go to evidence_alt/
+    edir = "evidence" if os.environ.get("VERIF_REPO", "/repo") == "/repo" else "evidence_alt"
+    os.makedirs(os.path.join(VERIF, edir), exist_ok=True)
     ev = dict(property_id=check.prop, tier=tier, seed=int(seed), level=check.level, coverage=coverage,
               assumptions=list(check.assumptions) + list(check.trusted), wall_s=round(time.time() - t0, 2),
               violations=violations)
-    with open(os.path.join(VERIF, "evidence", f"{check.prop}.json"), "w") as f:
+    with open(os.path.join(VERIF, edir, f"{check.prop}.json"), "w") as f:
         json.dump(ev, f, indent=1, default=str)
